@@ -216,9 +216,9 @@ class EmptyFamily(Family):
 class CompareFamily(Family):
     """related vectors under different junk / capacity / allocator, all operators (C13, C14)"""
 
-    def __init__(self, nlists=22, nscripts=16):
+    def __init__(self, nlists=22, nscripts=16, select=None):
         super().__init__()
-        self.nlists, self.nscripts = nlists, nscripts
+        self.nlists, self.nscripts, self.select = nlists, nscripts, select
 
     def extra_lists(self):
         P, lay_ = gen.P, lay
@@ -262,6 +262,8 @@ class CompareFamily(Family):
             if gen.list_key(l) not in seen:
                 seen.add(gen.list_key(l))
                 Ls.append(l)
+        if self.select is not None:
+            Ls = [L for L in Ls if self.select(L)]
         for li, L in enumerate(Ls):
             K = [K_DEFAULT, K_PMR][li % 2]
             scripts = []
@@ -652,7 +654,10 @@ FAMILIES["C07"] = Multi(HistFamily(nlists=16, nhist=8), SpecialFamily(nlists=6, 
 # instrumented value types as well (seeded change C06f)
 FAMILIES["C06"] = Multi(HistFamily(nlists=16, nhist=8, allow_overlap=True), SpecialFamily(nlists=6, nscripts=8),
                         ElemFamily(nlists=6, nscripts=14, select=lambda L: any(lay.ntc(p) or lay.ntd(p) for p in L)))
-FAMILIES["C02"] = Multi(HistFamily(strict_block=False, nhist=6, nfill=16), SweepFamily())
+# "no operation READS or writes outside the memory": the comparison operators on memcmp-able
+# lists (whole-buffer and run-wise fast paths), blocks flush against inaccessible pages (seed C02h)
+FAMILIES["C02"] = Multi(HistFamily(strict_block=False, nhist=6, nfill=16), SweepFamily(),
+                        CompareFamily(nlists=4, nscripts=10, select=lambda L: all(p.ty in (lay.TUINT, lay.TSINT, lay.TU8, lay.TS8, lay.TBYTE) for p in L)))
 FAMILIES["C13"] = Multi(CompareFamily(), SweepFamily(nunits=2))
 FAMILIES["C14"] = Multi(CompareFamily(), SweepFamily(nunits=2))
 FAMILIES["C11"] = Multi(ProxyFamily(), SweepFamily(nunits=2))
